@@ -17,7 +17,8 @@ DAY = 86400
 
 def configs(tier):
     cs = [Config(levels=1, ndisks=2), Config(levels=2, ndisks=3, hashkind="spooky2", hashsize=8, splits={0: 2, 1: 2}, parity_limit=6144),
-          Config(levels=3, z=True, ndisks=2, tag="rehash")]
+          Config(levels=3, z=True, ndisks=2, tag="rehash"),
+          Config(levels=1, ndisks=2, tag="scrubbed")]
     if tier == "thorough":
         cs += [Config(levels=6, ndisks=2), Config(levels=3, ndisks=4, blocksize=2), Config(levels=2, ndisks=3, tag="hole")]
     return cs
@@ -26,12 +27,17 @@ def configs(tier):
 def init_ops(cfg):
     ops = [("write", d, "anchor", 700, 0) for d in cfg.disknames]
     ops += [("write", "d1", "a", 2500, 0), ("write", "d1", "sp ace", 1, 0), ("write", "d1", "dir/co:lon", 1024, 0),
-            ("write", "d2", "b/c", 1025, 0), ("write", "d2", "five", 5000, 0)]
+            ("write", "d2", "b/c", 1025, 0), ("write", "d2", "five", 9000, 0)]
     if cfg.ndisks >= 3:
         ops += [("write", "d3", "dir/c", 3000, 0)]
     ops.append(("cmd", "sync"))
     if cfg.tag == "rehash":
-        ops += [("cmd", "rehash"), ("write", "d1", "late", 1500, 0), ("cmd", "sync")]
+        # the migration stays in progress; the new file goes to the longer disk so that the shorter disk ends inside the
+        # still-to-be-converted range and is followed by stripes where it has no block
+        ops += [("cmd", "rehash"), ("write", "d2", "late", 1500, 0), ("cmd", "sync")]
+    if cfg.tag == "scrubbed":
+        # everything scrubbed, then one small file synced: '-p new' selects a single stripe
+        ops += [("cmd", "scrub", "-p", "full"), ("write", "d1", "late", 1000, 0), ("cmd", "sync")]
     if cfg.tag == "hole":
         ops += [("emptydisk", "d2"), ("cmd", "sync", "-E"), ("dropdisk", "d2"), ("write", "d3", "late", 2500, 0), ("cmd", "sync")]
     return ops
